@@ -667,3 +667,26 @@ def history_cache_guard(ctx):
                     'after gettransactions(address, after_txid=t) on a cold cache the tail is stored as the whole history: later queries are answered from the cache with the tail, no provider is asked, balance and n_txs are those of the tail'
                     if not want else 'histories are never cached')
     ctx.saw('history cache guard: %s' % res)
+
+
+@PROP.obligation('C20.request-timeout', canaries=[
+    mut.replace_expr('services.baseclient', 'BaseClient.request', 'requests.get(url, timeout=self.timeout, verify=secure, headers=headers)', 'requests.get(url, verify=secure, headers=headers)', 'GET requests wait for ever'),
+])
+def request_timeout(ctx):
+    """Every HTTP request of the web provider clients (requests.get / post / put / request in bitcoinlib/services/*.py) carries
+    timeout=self.timeout: a provider that accepts the connection and never answers must end in an exception so that Service records it
+    as failed and moves on - without a timeout the query blocks for ever and no later provider is tried."""
+    n = 0
+    for mn, m in sorted(ctx.repo.modules.items()):
+        if not mn.startswith('services.'):
+            continue
+        for q, f in sorted(m.functions.items()):
+            for c in ast.walk(f):
+                if isinstance(c, ast.Call) and isinstance(c.func, ast.Attribute) and isinstance(c.func.value, ast.Name) and c.func.value.id == 'requests' and c.func.attr in ('get', 'post', 'put', 'request', 'head', 'delete'):
+                    n += 1
+                    t = next((k.value for k in c.keywords if k.arg == 'timeout'), None)
+                    ctx.saw('%s:%s: requests.%s(timeout=%s)' % (mn, q, c.func.attr, norm(t) if t is not None else None))
+                    if t is None or (isinstance(t, ast.Constant) and t.value is None):
+                        ctx.violate('%s:%s' % (mn, q), '`%s...` is sent without a timeout' % norm(c)[:70], c,
+                                    'a provider that hangs blocks the whole query: it is never counted as failed and the providers after it are never asked')
+    ctx.floor(n, 3, 'HTTP request call sites')
